@@ -52,7 +52,7 @@ static const char *const mut_name[NMUT] = {
 
 typedef struct buf { char *p; size_t n; } buf_t;
 
-#define MAXSEEDS 12
+#define MAXSEEDS 32
 static buf_t seeds[NKINDS][MAXSEEDS];
 static int nseeds[NKINDS];
 
@@ -219,6 +219,22 @@ static const char hand_s1p_defaults[] =
     "#\n"
     "1 0.5 30\n"
     "2 0.6 40\n";
+
+/* NPD files without any parameter a matrix can be rebuilt from (the saver
+ * writes such files; a correct loader refuses them cleanly), in the saver's
+ * comma-separated and in the space-separated spelling of #:parameters */
+static const char hand_npd_vswr[] =
+    "#NPD\n#:version 1.0\n#:ports 2\n#:frequencies 2\n"
+    "#:parameters VSWR\n#:z0 50.0 +0.0j 50.0 +0.0j\n"
+    "1.0e+09 1.5 2.5\n2.0e+09 1.6 2.6\n";
+static const char hand_npd_il_rl_spaces[] =
+    "#NPD\n#:version 1.0\n#:ports 2\n#:frequencies 2\n"
+    "#:parameters IL RL\n#:z0 50.0 +0.0j 50.0 +0.0j\n"
+    "1.0e+09 3.0 4.0 10.0 11.0\n2.0e+09 3.1 4.1 10.1 11.1\n";
+static const char hand_npd_sri_spaces[] =
+    "#NPD\n#:version 1.0\n#:ports 1\n#:frequencies 2\n"
+    "#:parameters RL Sri VSWR\n#:z0 75.0 +0.0j\n"
+    "1.0e+09 10.0 0.1 0.2 1.5\n2.0e+09 11.0 0.3 0.4 1.6\n";
 
 static const char hand_v2cal[] =
     "#VNACAL 2.0\n"
@@ -424,6 +440,21 @@ static void make_seeds(void)
     seed_data(K_NPD, VPT_A, 2, 2, 2, "Ari,Bma,Zinma,SRL,PRL,SRC", 0, 1,
 	    ".npd", 65);
     seed_data(K_NPD, VPT_Y, 1, 1, 3, "Yri,Zri,RL,VSWR", 0, 4, ".npd", 66);
+    /* every kind of format list vnadata_save accepts for NPD, including
+     * the lists without a loadable parameter and single-column lists */
+    seed_data(K_NPD, VPT_S, 2, 2, 2, "VSWR", 0, 0, ".npd", 67);
+    seed_data(K_NPD, VPT_S, 2, 2, 2, "IL,RL", 0, 0, ".npd", 68);
+    seed_data(K_NPD, VPT_S, 3, 3, 2, "IL", 0, 0, ".npd", 69);
+    seed_data(K_NPD, VPT_S, 1, 1, 3, "RL", 0, 0, ".npd", 70);
+    seed_data(K_NPD, VPT_S, 1, 1, 2, "RL,VSWR", 0, 4, ".npd", 71);
+    seed_data(K_NPD, VPT_Z, 2, 2, 2, "Zinma", 0, 0, ".npd", 72);
+    seed_data(K_NPD, VPT_S, 2, 2, 2, "PRC,SRL", 0, 0, ".npd", 73);
+    seed_data(K_NPD, VPT_S, 2, 2, 2, "VSWR,SdB,IL", 0, 0, ".npd", 74);
+    seed_data(K_NPD, VPT_U, 2, 2, 2, "Uma", 0, 0, ".npd", 75);
+    seed_data(K_NPD, VPT_B, 2, 2, 2, "Bri,Gri,Hma,Yma", 0, 0, ".npd", 76);
+    add_seed(K_NPD, hand_npd_vswr, sizeof(hand_npd_vswr) - 1);
+    add_seed(K_NPD, hand_npd_il_rl_spaces, sizeof(hand_npd_il_rl_spaces) - 1);
+    add_seed(K_NPD, hand_npd_sri_spaces, sizeof(hand_npd_sri_spaces) - 1);
     seed_vnacal(0);
     seed_vnacal(1);
     seed_vnacal(2);
